@@ -84,7 +84,9 @@ impl<'a> RenumVisitor<'a> {
             Integer(col, n) => (col, *n as f64),
             _ => return,
         };
-        if n > LineNumber::max_value() as f64 {
+        // An omitted operand (RESTORE, RUN, LIST, DELETE defaults) is not a
+        // reference: it is negative or has no text in the line.
+        if n < 0.0 || n > LineNumber::max_value() as f64 || col.start == col.end {
             return;
         }
         let n = n as u16;
